@@ -906,12 +906,7 @@ func (fi *funcInfo) rangeFactsSeen(seen map[string]bool, ls ...Lin) []Lin {
 			}
 			seen[a] = true
 			if strings.HasPrefix(a, "len") {
-				if strings.Contains(a, "Interpreter.DictStack@entry)") {
-					out = append(out, atom(a).addK(-2))
-				}
-				if strings.Contains(a, "Interpreter.scanners@entry)") || strings.Contains(a, "Interpreter.errors@entry)") {
-					out = append(out, atom(a).addK(-1))
-				}
+				out = append(out, slotFacts(a)...)
 				if splitLens[a] {
 					out = append(out, atom(a).addK(-1))
 				}
